@@ -165,4 +165,14 @@ example : renderPartials (fun n => .ok ("<" ++ n ++ ">")) ".partial/" "T" ["a", 
     = .ok [("a", "<T.partial/a>"), ("b", "<T.partial/b>")] := by
   simp [renderPartials, renderPartialsLoop, mapSet]
 
+/-- **C17 (the model's tie to `Engine.RenderPartials`).** The control skeleton regenerated from pugjs/engine.go: one loop over the
+requested names, one Render per name, the first error returned at once with no content, the map returned at the end - nothing
+else decides what the result holds. -/
+theorem C17_render_partials_skeleton :
+    Gen.renderSkeleton_ok = true ∧
+    (Gen.renderSkeleton.filter fun r => r.1 == "RenderPartials") =
+      [("RenderPartials", "0 range partials"), ("RenderPartials", "1 if err != nil"), ("RenderPartials", "2 return nil, err"),
+       ("RenderPartials", "0 return res, nil")] := by
+  constructor <;> decide
+
 end Pug.Props.C17
